@@ -76,6 +76,38 @@ def rerun_task():
     return Task(f"{PROP}.Bd.rerun", PROP, "full runs", run)
 
 
+def workers_task():
+    def run():
+        import ast
+        from bounded import c12
+        t0 = time.time()
+        hit = c12.command_line_workers()
+        r = OR(id=f"{PROP}.Bd.cli.graphs_with_worker_processes", status=REFUTED if hit else PROVED, kind="Bd", role="bounded", target="python -m ford (real command line)",
+               desc="`python -m ford proj.md` with graph: true and a graph_dir, serial and with two worker processes: both runs succeed and write the same graph files",
+               bound="1 project x 2 runs", cases=2, seconds=time.time() - t0, backend="enumeration")
+        if hit:
+            r.replay, r.witness = hit, hit["input"]
+        # what travels to the worker processes is the settings object (through every entity): only declared settings are put on it
+        fn = loader.find_def("ford.settings", "convert_types_from_commandarguments")
+        sets = [c for c in ast.walk(fn) if isinstance(c, ast.Call) and isinstance(c.func, ast.Name) and c.func.id == "setattr"]
+
+        def guarded(call):
+            for n in ast.walk(fn):
+                if isinstance(n, ast.If) and any(x is call for b in n.body for x in ast.walk(b)) and "in field_types" in ast.unparse(n.test) and "not in" not in ast.unparse(n.test):
+                    return True
+            return False
+        ok = bool(sets) and all(guarded(c) for c in sets)
+        r2 = OR(id=f"{PROP}.S.settings.convert_types_from_commandarguments.only_declared_settings_are_set", status=PROVED if ok else REFUTED, kind="S", role="frame", backend="ast",
+                target="ford.settings.convert_types_from_commandarguments",
+                desc=f"each of the {len(sets)} `setattr(settings, key, ..)` of the function stands under `key in field_types`: nothing else of the argparse namespace (the open project file) lands on "
+                     "the settings object that is pickled for the worker processes")
+        if not ok:
+            r2.detail = "entries of the command-line namespace that are not settings are copied onto the settings object: it can no longer be sent to a worker process"
+            r2.replay = hit
+        return [r, r2]
+    return Task(f"{PROP}.Bd.workers", PROP, "command line", run)
+
+
 def build(tier, seed):
     set_tier(tier)
     tasks = [Task(f"{PROP}.S.ordering", PROP, "unordered iteration", _with_replay(ordering.obligations)), Task(f"{PROP}.A.lt", PROP, "__lt__", lambda: ordering.lt_contracts(PROP)),
@@ -83,7 +115,7 @@ def build(tier, seed):
              Task(f"{PROP}.S.templates", PROP, "template loops over sets", _templates),
              Task(f"{PROP}.S.workers", PROP, "GraphManager.output_graphs", lambda: ordering.serial_parallel_agreement(PROP)),
              Task(f"{PROP}.S.stale_output", PROP, "output directory excluded from discovery", lambda: __import__("contracts.confine", fromlist=["x"]).output_dir_excluded(PROP, lambda: __import__("bounded.c12", fromlist=["x"]).rerun_cases())),
-             bounded_task(), rerun_task(), pages_task()]
+             bounded_task(), rerun_task(), workers_task(), pages_task()]
     meta = {
         "trusted_base": TRUSTED_BASE + ["the ordering analysis of contracts/ordering.py: which expressions are unordered collections, which loop bodies are order-insensitive"],
         "assumptions": PYVC_ASSUMPTIONS + [
